@@ -118,12 +118,17 @@ pub fn registry() -> Vec<Property> {
                connection under that number with byte-identical cleartext, at most once per (connection, space, number); no forged number is ever \
                acknowledged; payload oracle of C01; no close/reset other than application closes; application-visible outcome equals that of the \
                same scenario without the attacker. Non-trivial: an injected datagram reached an endpoint after both sides confirmed the handshake \
-               and a genuine 1-RTT datagram was replayed after the original.",
+               and a genuine 1-RTT datagram was replayed after the original. Component level, all three cipher suites of s2n-quic-crypto (crypto_reference_differential, crypto_forgery, \
+               crypto_bitflip_exhaustive in comp/src/c06_crypto.rs): generated key level (Initial both roles / 0-RTT / Handshake / 1-RTT generations 0..6) x suite x header x packet number in [0,2^62) biased \
+               to the 2^8..2^32 boundaries x pn length x payload 0..1500 B; the packet sealed by s2n-quic must be byte-identical to an RFC 9001 section 5 transcription written on raw HMAC / AEAD / AES-ECB \
+               primitives (own HKDF-Expand-Label, nonce, sample offset, mask rule, own ChaCha20 block), the reference packet must open to the same header, number and payload, and every mutated packet \
+               (bit flips by region, truncation, extension, splices, claimed packet number, other generation / direction / secret) must be refused exactly when the reference refuses it; non-trivial there: \
+               the mutation changed bytes the receiver parses (forgery) or a full header-protection sample existed (differential).",
         assumptions: &[
             "'holding the keys' is modelled as 'was sealed by the peer endpoint in this process'; no cryptanalytic claim; constant-time behaviour is not observable",
-            "cipher suite is whatever s2n-tls negotiates with itself (one suite); the stateless-reset exception is not exercised (the attacker never has the token)",
+            "end to end the connections run on TLS_AES_128_GCM_SHA256 or, in every second case, TLS_AES_256_GCM_SHA384 (server TLS policy 20250414; the suite is read back from the key_update events and counted as a class); s2n-tls offers no policy that selects TLS_CHACHA20_POLY1305_SHA256, which is covered at component level only (crypto_* sub-checks: all three suites against an RFC 9001 transcription on raw aws-lc-rs primitives); the stateless-reset exception is not exercised (the attacker never has the token)",
         ],
-        subs: mon_c06::subs(),
+        subs: { let mut v = comp::c06_crypto::subs(); v.extend(mon_c06::subs()); v },
         shards: 0,
     },
     Property {
